@@ -320,7 +320,8 @@ struct CaseState
    bool isEscapeOf; S escapedFrom;
    std::set<S> fails;
    std::set<S> uniqueMatches;
-   CaseState() : cur(&own), sup(true), haveSimple(false), isEscapeOf(false) {}
+   DocPattern dp; S dpFor; bool dpValid; S une;   // the documented reading of (pattern), computed once per pattern
+   CaseState() : cur(&own), sup(true), haveSimple(false), isEscapeOf(false), dpValid(false) {}
 };
 
 static S flags(const StringMatcher & m, bool sup)
@@ -366,7 +367,12 @@ static void oracle(CaseState & cs, const S & subj, bool got)
    StringMatcher & m = *cs.cur;
    if (!cs.haveSimple) return;
    // (1) the documented meaning
-   DocPattern dp; parseDoc(cs.pattern, dp);
+   if ((!cs.dpValid)||(cs.dpFor != cs.pattern))
+   {
+      cs.dp = DocPattern(); parseDoc(cs.pattern, cs.dp); cs.dpFor = cs.pattern; cs.dpValid = true;
+      cs.une = S(RemoveEscapeChars(String(cs.pattern.c_str()))());
+   }
+   const DocPattern & dp = cs.dp;
    if (dp.documented)
    {
       const char * why = NULL;
@@ -413,8 +419,7 @@ static void oracle(CaseState & cs, const S & subj, bool got)
       if (got)
       {
          cs.uniqueMatches.insert(subj);
-         const S une = S(RemoveEscapeChars(String(cs.pattern.c_str()))());
-         if ((cs.uniqueMatches.size() > 1)||(subj != une))
+         if ((cs.uniqueMatches.size() > 1)||(subj != cs.une))
          {
             S cls = "unique-unsound";
             if (hasGnuEscape(cs.pattern)) cls = "F8-gnu-escape";
